@@ -176,22 +176,55 @@ def _take(model: Model, T: RuleResult):
         raise AnalysisError("C05-T: _take_eigpairs no longer has the lowest / uppermost branch")
     br = ifs[0]
     t = br.test
-    low_first = isinstance(t, ast.Compare) and ast.unparse(t.left) == pm and isinstance(t.ops[0], ast.Eq) and isinstance(t.comparators[0], ast.Constant) \
-        and t.comparators[0].value == "lowest"
-    if not low_first:
-        raise AnalysisError("C05-T: the branch test is not `mode == \"lowest\"`")
+    if not (isinstance(t, ast.Compare) and len(t.ops) == 1 and ast.unparse(t.left) == pm and isinstance(t.ops[0], (ast.Eq, ast.NotEq))
+            and isinstance(t.comparators[0], ast.Constant) and t.comparators[0].value in ("lowest", "uppest")):
+        raise AnalysisError("C05-T: the branch test is not a comparison of `mode` with \"lowest\" / \"uppest\"")
+    # which arm runs for which (normalised) mode: decided from the test, whatever its polarity or literal
+    def arm(modeval):
+        truth = (modeval == t.comparators[0].value) == isinstance(t.ops[0], ast.Eq)
+        return br.body if truth else br.orelse
+    from ..domains.poly import eval_expr, S as _S, C as _C
 
-    def slices(block):
+    def bounds(block):
+        """name -> (lower, upper) of the last-axis slice applied to that name in this block, as polynomials in neig and n (= size of the axis)"""
+        env = {pn: _S("neig")}
         out = {}
-        for s in block:
-            if isinstance(s, ast.Assign) and isinstance(s.targets[0], ast.Name) and isinstance(s.value, ast.Subscript) and isinstance(s.value.value, ast.Name) \
-                    and s.value.value.id == s.targets[0].id:
-                out[s.targets[0].id] = ast.unparse(s.value.slice).replace(" ", "")
+
+        def atom(e):
+            if isinstance(e, ast.Subscript) and isinstance(e.value, ast.Attribute) and e.value.attr == "shape" and ast.unparse(e.slice) in ("-1",) \
+                    and isinstance(e.value.value, ast.Name) and e.value.value.id in (pe, pv):
+                return _S("n")
+            if isinstance(e, ast.Call) and ast.unparse(e.func) in ("len",) and False:
+                return None
+            return None
+        for s_ in block:
+            if isinstance(s_, ast.Assign) and isinstance(s_.targets[0], ast.Name):
+                tg = s_.targets[0].id
+                v = s_.value
+                if isinstance(v, ast.Subscript) and isinstance(v.value, ast.Name) and v.value.id == tg and tg in (pe, pv):
+                    sl = v.slice
+                    elts = sl.elts if isinstance(sl, ast.Tuple) else [sl]
+                    if len(elts) == 2 and isinstance(elts[0], ast.Constant) and elts[0].value is Ellipsis and isinstance(elts[1], ast.Slice) and elts[1].step is None:
+                        lo_ = eval_expr(elts[1].lower, env, atom) if elts[1].lower is not None else None
+                        up_ = eval_expr(elts[1].upper, env, atom) if elts[1].upper is not None else None
+                        out[tg] = (repr(lo_) if lo_ is not None else None, repr(up_) if up_ is not None else None)
+                    else:
+                        out[tg] = ("?", ast.unparse(sl))
+                else:
+                    try:
+                        env[tg] = eval_expr(v, env, atom)
+                    except Uninterpretable:
+                        pass
         return out
-    lo, up = slices(br.body), slices(br.orelse)
-    want_lo = "(...,slice(None,%s,None))" % pn
-    ok_lo = lo.get(pe) == lo.get(pv) and lo.get(pe) in ("(...,:%s)" % pn, "...,:%s" % pn)
-    ok_up = up.get(pe) == up.get(pv) and up.get(pe) in ("(...,-%s:)" % pn, "...,-%s:" % pn)
+    try:
+        lo, up = bounds(arm("lowest")), bounds(arm("uppest"))
+    except Uninterpretable as e:
+        raise AnalysisError("C05-T: cannot interpret the slices of _take_eigpairs: %s" % e)
+    neig_, n_ = _S("neig"), _S("n")
+    first = {(None, repr(neig_)), (repr(_C(0)), repr(neig_))}
+    last = {(repr(-neig_), None), (repr(n_ - neig_), None), (repr(-neig_), repr(n_)), (repr(n_ - neig_), repr(n_))}
+    ok_lo = lo.get(pe) == lo.get(pv) and lo.get(pe) in first
+    ok_up = up.get(pe) in last and up.get(pv) in last
     if ok_lo:
         T.ok(f.fq, "lowest: the first neig entries of the last axis, the same slice for values and (columns of) vectors")
     else:
